@@ -107,7 +107,8 @@ def simStep (p : Problem) (v : Variant) (s : Sim) (a : Nat) : Sim :=
         if s.onboard ≠ [] then s.fail 6
         else if v.home && a ≠ d then s.fail 7
         else
-          let leg := if p.openMode then 0 else p.D s.pos a
+          -- the way home; a vehicle that never left its depot (empty tour) drives nothing
+          let leg := if p.openMode then 0 else if s.pos < p.K then 0 else p.D s.pos a
           let slot := if v.perVehicle then d else 0
           { s with veh := none, pos := a, clock := s.clock + leg, lens := addLen s.lens slot leg }
   else
